@@ -12,7 +12,7 @@ A unit file (verus/units/*.vunit) is a list of sections:
   #scope <stripped source line>  -- search the #fn anchor only inside the brace block opened on that line (`impl T {`)
   #ret <name>                -- name given to the return value (`-> T` becomes `-> (name: T)`)
   #clauses                   -- requires/ensures/decreases text until next directive
-  #hint-before <stripped source line inside the function body>
+  #hint-before[@N] / #hint-after[@N] <stripped source line inside the function body>
                              -- ghost text (assert .. by(..)) inserted before that line; text until next directive
   #subst-re <regex> => <repl>  -- same with a regular expression (used for `String::from_utf8_lossy(X).to_string()`
                              -- -> `lossy_string(X)`, a trusted wrapper whose body is that very expression)
@@ -24,6 +24,7 @@ A unit file (verus/units/*.vunit) is a list of sections:
   #deasync                   -- the function is an `async fn`: the `async` keyword and every `.await` are dropped, so the body
                              -- is read as the sequential code one task executes (awaited callees are opaque calls); what
                              -- this loses: interleaving with other tasks at the await points
+  #tail-block                -- like #tail, the text (ghost proof block + result expression) runs until the next directive
   #tail <expr>               -- result expression of a cut function (e.g. `Ok(())`), placed where the dropped remainder began
   #cut-after / #cut-before <stripped body line>  -- only the body up to and including / excluding that line is kept
                              -- (open blocks are closed; a cut function returns its `Ok(())`-less prefix, see #tail);
@@ -210,9 +211,13 @@ def parse_unit(path):
                 cur_fn["ret"] = arg
             elif d == "clauses":
                 buf = cur_fn["clauses"]
-            elif d == "hint-before":
+            elif d.split("@")[0] in ("hint-before", "hint-after"):
+                # `#hint-before@N` / `#hint-after@N`: the N-th body line with that text (default: the only one)
                 buf = []
-                cur_fn["hints"].append((arg, buf))
+                cur_fn["hints"].append((arg, buf, d.split("@")[0] == "hint-after", int(d.split("@")[1]) if "@" in d else None))
+            elif d == "tail-block":
+                buf = []
+                cur_fn["tail_lines"] = buf
             elif d == "drop-macro":
                 cur_fn.setdefault("drop", []).extend(arg.split())
             elif d == "subst":
@@ -304,7 +309,7 @@ def assemble(unit, repo):
                 text = "\n".join(bl[f[0]: t[0] + 1])
                 block = {"in": val["anchor"], "from": val["block_from"], "to": val.get("block_to") or ("(up to) " + val["block_until"] if val.get("block_until") else "(closing brace of the first block)"), "lines": t[0] - f[0] + 1}
                 a, b = off, off + len(text)
-                sig, body = val["block_sig"] + " ", "{\n" + text + "\n" + val.get("tail", "") + "\n}"
+                sig, body = val["block_sig"] + " ", "{\n" + text + "\n" + "\n".join([val.get("tail", "")] + val.get("tail_lines", [])) + "\n}"
             real_sha = hashlib.sha256(srcs[sp][a:b].encode()).hexdigest()
             # (1) signature rewrite
             sig_s = sig.rstrip()
@@ -332,7 +337,7 @@ def assemble(unit, repo):
                 depth = stripped.count("{") - stripped.count("}")
                 shape["cut"] = {"after" if val.get("cut_after") else "before": cut, "body_lines_kept": hits[0] + 1, "body_lines_dropped": len(bl) - hits[0] - 1}
                 # `#tail <expr>`: the value a cut function returns where the dropped remainder would have continued
-                body = kept + "\n" + "}" * (depth - 1) + "\n" + val.get("tail", "") + "\n}"
+                body = kept + "\n" + "}" * (depth - 1) + "\n" + "\n".join([val.get("tail", "")] + val.get("tail_lines", [])) + "\n}"
             # (0) drop logging-macro statements (Verus does not expand tracing macros); each dropped
             #     statement is recorded in the extraction report
             dropped = []
@@ -374,14 +379,19 @@ def assemble(unit, repo):
             # (2) hints and loop invariants
             body_lines = body.split("\n")
             lost = []
-            for anchor, text in val["hints"]:
+            hint_ins = []
+            for anchor, text, after, nth in val["hints"]:
                 hits = [k for k, l in enumerate(body_lines) if l.strip() == anchor]
-                if len(hits) != 1:
+                if (nth is None and len(hits) != 1) or (nth is not None and len(hits) < nth):
                     # the body was restructured: try without this ghost hint; if the proof then fails the
                     # obligation is reported UNDECIDED (never as a violation), see check:classify_verus
-                    lost.append("hint before %r in %s" % (anchor, val["anchor"]))
+                    lost.append("hint %s %r in %s" % ("after" if after else "before", anchor, val["anchor"]))
                     continue
-                body_lines[hits[0]:hits[0]] = text
+                k = hits[0] if nth is None else hits[nth - 1]
+                hint_ins.append((k + 1 if after else k, text))
+            # insert bottom-up so the recorded line numbers stay valid
+            for k, text in sorted(hint_ins, key=lambda x: -x[0]):
+                body_lines[k:k] = text
             pending = []
             relocated = []
             # every loop head of the body, in order (fallback when a quoted head no longer matches, e.g. because
